@@ -17,6 +17,7 @@ import (
 	"github.com/modernizing/coca/pkg/application/evaluate"
 	"github.com/modernizing/coca/pkg/infrastructure/string_helper"
 	"github.com/modernizing/coca/pkg/application/tbs"
+	"github.com/modernizing/coca/pkg/domain/api_domain"
 	"github.com/modernizing/coca/pkg/domain/bs_domain"
 	"github.com/modernizing/coca/pkg/domain/core_domain"
 )
@@ -87,6 +88,57 @@ func init() {
 		decoy := writeTree(L(L(A("d/DecoyController.java"), A("package d;\n@RestController\npublic class DecoyController {\n  @GetMapping(\"/decoy\")\n  public String decoy() { return null; }\n  @PostMapping(\"/decoy2\")\n  public String decoy2() { return null; }\n}\n"))))
 		_ = new(api.JavaApiApp).AnalysisPath(decoy, nil, map[string]core_domain.CodeDataStruct{}, map[string]string{})
 		os.RemoveAll(decoy)
+		// every other project also goes through the commands, as the README runs them: `coca analysis -p DIR`, then
+		// `coca api -f -p DIR -d coca_reporter/deps.json`; what the user gets is apis.json (the entries) and api.csv
+		// (one row per entry that reaches the table): the entries of apis.json that have their row in api.csv are
+		// the observation, a row without an entry is listed under the verb "!CSV-ONLY"
+		if cliEnabled() && len(in.Items())%2 == 0 {
+			sess := newCliSess()
+			defer sess.close()
+			root := rootArg(dir, in)
+			if o, ok := sess.run("analysis", "-p", root); !ok {
+				return L(L(A("!CLI-ERROR analysis"), A(panicClass(o)), A(""), A(""), A(""), A("")))
+			}
+			if o, ok := sess.run("api", "-f", "-p", root, "-d", "coca_reporter/deps.json"); !ok {
+				return L(L(A("!CLI-ERROR api"), A(panicClass(o)), A(""), A(""), A(""), A("")))
+			}
+			var listed []api_domain.RestAPI
+			if text, ok := sess.read("apis.json"); !ok || json.Unmarshal([]byte(text), &listed) != nil {
+				return L(L(A("!CLI-NO-OUTPUT apis.json"), A(""), A(""), A(""), A(""), A("")))
+			}
+			csv, ok := sess.read("api.csv")
+			if !ok {
+				return L(L(A("!CLI-NO-OUTPUT api.csv"), A(""), A(""), A(""), A(""), A("")))
+			}
+			rows := map[string]int{}
+			parseable := true
+			for i, ln := range strings.Split(csv, "\n") {
+				if i == 0 || strings.TrimSpace(ln) == "" {
+					continue
+				}
+				cells := strings.Split(ln, ",")
+				if len(cells) != 4 {
+					parseable = false
+					break
+				}
+				rows[strings.TrimSpace(cells[1])+" "+strings.TrimSpace(cells[2])+" "+strings.TrimSpace(cells[3])]++
+			}
+			if parseable {
+				apis = nil
+				for _, r := range listed {
+					k := r.HttpMethod + " " + strings.TrimSpace(r.Uri) + " " + r.PackageName + "." + r.ClassName + "." + r.MethodName
+					if rows[k] > 0 {
+						rows[k]--
+						apis = append(apis, r)
+					}
+				}
+				for k, n := range rows {
+					for ; n > 0; n-- {
+						apis = append(apis, api_domain.RestAPI{HttpMethod: "!CSV-ONLY", Uri: k})
+					}
+				}
+			}
+		}
 		for _, r := range apis {
 			out = append(out, L(A(r.HttpMethod), A(r.Uri), A(r.PackageName), A(r.ClassName), A(r.MethodName), A(r.RequestBodyClass)))
 		}
